@@ -74,6 +74,7 @@ type Instance struct {
 	cacheEpoch int
 	cacheSnap  []byte
 	loadStep   int // scheduler step at which the current incarnation started
+	staged     map[string][]byte // members of the staging bundle the current round built
 	timeGuardHit bool
 	timeGuardInc int
 	// recomputed: after a successful run of the recompute-cache tool, the
